@@ -12,4 +12,156 @@ MCPrefixes == {"a", "a1", "io", "type"}
 MCPrefixesX == {"a", "a1", "io", "type", "string"}
 MCAddNames == {"a", "a2", "io", "typeParam"}
 MCAddNames4 == {"a", "a1", "a2", "io0", "type1", "typeParam"}
-=============================================================================
+\* package-focused alphabet: a path that is a "/"-suffix of another one ("io" vs "x/io"), a package named like
+\* the source package, and the source package itself (= destination path: external test package unless in-package)
+MCPkgsP == {[name |-> "io", path |-> "io"], [name |-> "io", path |-> "x/io"],
+            [name |-> "src", path |-> "q/src"], [name |-> "src", path |-> "s/src"]}
+\* probe-template route: the real source package ("src") and a foreign package of the same name
+MCPkgsT == MCPkgs4 \cup {[name |-> "src", path |-> "q/src"], [name |-> "src", path |-> "src"]}
+MCPrefixesP == {"io", "src"}
+MCAddNamesP == {"io0", "src"}
+====\* package-focused alphabet: a path that is a "/"-suffix of another one ("io" vs "x/io"), a package named like
+\* the source package, and the source package itself (= destination path: external test package unless in-package)
+MCPkgsP == {[name |-> "io", path |-> "io"], [name |-> "io", path |-> "x/io"],
+            [name |-> "src", path |-> "q/src"], [name |-> "src", path |-> "s/src"]}
+\* probe-template route: the real source package ("src") and a foreign package of the same name
+MCPkgsT == MCPkgs4 \cup {[name |-> "src", path |-> "q/src"], [name |-> "src", path |-> "src"]}
+MCPrefixesP == {"io", "src"}
+MCAddNamesP == {"io0", "src"}
+====\* package-focused alphabet: a path that is a "/"-suffix of another one ("io" vs "x/io"), a package named like
+\* the source package, and the source package itself (= destination path: external test package unless in-package)
+MCPkgsP == {[name |-> "io", path |-> "io"], [name |-> "io", path |-> "x/io"],
+            [name |-> "src", path |-> "q/src"], [name |-> "src", path |-> "s/src"]}
+\* probe-template route: the real source package ("src") and a foreign package of the same name
+MCPkgsT == MCPkgs4 \cup {[name |-> "src", path |-> "q/src"], [name |-> "src", path |-> "src"]}
+MCPrefixesP == {"io", "src"}
+MCAddNamesP == {"io0", "src"}
+====\* package-focused alphabet: a path that is a "/"-suffix of another one ("io" vs "x/io"), a package named like
+\* the source package, and the source package itself (= destination path: external test package unless in-package)
+MCPkgsP == {[name |-> "io", path |-> "io"], [name |-> "io", path |-> "x/io"],
+            [name |-> "src", path |-> "q/src"], [name |-> "src", path |-> "s/src"]}
+\* probe-template route: the real source package ("src") and a foreign package of the same name
+MCPkgsT == MCPkgs4 \cup {[name |-> "src", path |-> "q/src"], [name |-> "src", path |-> "src"]}
+MCPrefixesP == {"io", "src"}
+MCAddNamesP == {"io0", "src"}
+====\* package-focused alphabet: a path that is a "/"-suffix of another one ("io" vs "x/io"), a package named like
+\* the source package, and the source package itself (= destination path: external test package unless in-package)
+MCPkgsP == {[name |-> "io", path |-> "io"], [name |-> "io", path |-> "x/io"],
+            [name |-> "src", path |-> "q/src"], [name |-> "src", path |-> "s/src"]}
+\* probe-template route: the real source package ("src") and a foreign package of the same name
+MCPkgsT == MCPkgs4 \cup {[name |-> "src", path |-> "q/src"], [name |-> "src", path |-> "src"]}
+MCPrefixesP == {"io", "src"}
+MCAddNamesP == {"io0", "src"}
+====\* package-focused alphabet: a path that is a "/"-suffix of another one ("io" vs "x/io"), a package named like
+\* the source package, and the source package itself (= destination path: external test package unless in-package)
+MCPkgsP == {[name |-> "io", path |-> "io"], [name |-> "io", path |-> "x/io"],
+            [name |-> "src", path |-> "q/src"], [name |-> "src", path |-> "s/src"]}
+\* probe-template route: the real source package ("src") and a foreign package of the same name
+MCPkgsT == MCPkgs4 \cup {[name |-> "src", path |-> "q/src"], [name |-> "src", path |-> "src"]}
+MCPrefixesP == {"io", "src"}
+MCAddNamesP == {"io0", "src"}
+====\* package-focused alphabet: a path that is a "/"-suffix of another one ("io" vs "x/io"), a package named like
+\* the source package, and the source package itself (= destination path: external test package unless in-package)
+MCPkgsP == {[name |-> "io", path |-> "io"], [name |-> "io", path |-> "x/io"],
+            [name |-> "src", path |-> "q/src"], [name |-> "src", path |-> "s/src"]}
+\* probe-template route: the real source package ("src") and a foreign package of the same name
+MCPkgsT == MCPkgs4 \cup {[name |-> "src", path |-> "q/src"], [name |-> "src", path |-> "src"]}
+MCPrefixesP == {"io", "src"}
+MCAddNamesP == {"io0", "src"}
+====\* package-focused alphabet: a path that is a "/"-suffix of another one ("io" vs "x/io"), a package named like
+\* the source package, and the source package itself (= destination path: external test package unless in-package)
+MCPkgsP == {[name |-> "io", path |-> "io"], [name |-> "io", path |-> "x/io"],
+            [name |-> "src", path |-> "q/src"], [name |-> "src", path |-> "s/src"]}
+\* probe-template route: the real source package ("src") and a foreign package of the same name
+MCPkgsT == MCPkgs4 \cup {[name |-> "src", path |-> "q/src"], [name |-> "src", path |-> "src"]}
+MCPrefixesP == {"io", "src"}
+MCAddNamesP == {"io0", "src"}
+====\* package-focused alphabet: a path that is a "/"-suffix of another one ("io" vs "x/io"), a package named like
+\* the source package, and the source package itself (= destination path: external test package unless in-package)
+MCPkgsP == {[name |-> "io", path |-> "io"], [name |-> "io", path |-> "x/io"],
+            [name |-> "src", path |-> "q/src"], [name |-> "src", path |-> "s/src"]}
+\* probe-template route: the real source package ("src") and a foreign package of the same name
+MCPkgsT == MCPkgs4 \cup {[name |-> "src", path |-> "q/src"], [name |-> "src", path |-> "src"]}
+MCPrefixesP == {"io", "src"}
+MCAddNamesP == {"io0", "src"}
+====\* package-focused alphabet: a path that is a "/"-suffix of another one ("io" vs "x/io"), a package named like
+\* the source package, and the source package itself (= destination path: external test package unless in-package)
+MCPkgsP == {[name |-> "io", path |-> "io"], [name |-> "io", path |-> "x/io"],
+            [name |-> "src", path |-> "q/src"], [name |-> "src", path |-> "s/src"]}
+\* probe-template route: the real source package ("src") and a foreign package of the same name
+MCPkgsT == MCPkgs4 \cup {[name |-> "src", path |-> "q/src"], [name |-> "src", path |-> "src"]}
+MCPrefixesP == {"io", "src"}
+MCAddNamesP == {"io0", "src"}
+====\* package-focused alphabet: a path that is a "/"-suffix of another one ("io" vs "x/io"), a package named like
+\* the source package, and the source package itself (= destination path: external test package unless in-package)
+MCPkgsP == {[name |-> "io", path |-> "io"], [name |-> "io", path |-> "x/io"],
+            [name |-> "src", path |-> "q/src"], [name |-> "src", path |-> "s/src"]}
+\* probe-template route: the real source package ("src") and a foreign package of the same name
+MCPkgsT == MCPkgs4 \cup {[name |-> "src", path |-> "q/src"], [name |-> "src", path |-> "src"]}
+MCPrefixesP == {"io", "src"}
+MCAddNamesP == {"io0", "src"}
+====\* package-focused alphabet: a path that is a "/"-suffix of another one ("io" vs "x/io"), a package named like
+\* the source package, and the source package itself (= destination path: external test package unless in-package)
+MCPkgsP == {[name |-> "io", path |-> "io"], [name |-> "io", path |-> "x/io"],
+            [name |-> "src", path |-> "q/src"], [name |-> "src", path |-> "s/src"]}
+\* probe-template route: the real source package ("src") and a foreign package of the same name
+MCPkgsT == MCPkgs4 \cup {[name |-> "src", path |-> "q/src"], [name |-> "src", path |-> "src"]}
+MCPrefixesP == {"io", "src"}
+MCAddNamesP == {"io0", "src"}
+====\* package-focused alphabet: a path that is a "/"-suffix of another one ("io" vs "x/io"), a package named like
+\* the source package, and the source package itself (= destination path: external test package unless in-package)
+MCPkgsP == {[name |-> "io", path |-> "io"], [name |-> "io", path |-> "x/io"],
+            [name |-> "src", path |-> "q/src"], [name |-> "src", path |-> "s/src"]}
+\* probe-template route: the real source package ("src") and a foreign package of the same name
+MCPkgsT == MCPkgs4 \cup {[name |-> "src", path |-> "q/src"], [name |-> "src", path |-> "src"]}
+MCPrefixesP == {"io", "src"}
+MCAddNamesP == {"io0", "src"}
+====\* package-focused alphabet: a path that is a "/"-suffix of another one ("io" vs "x/io"), a package named like
+\* the source package, and the source package itself (= destination path: external test package unless in-package)
+MCPkgsP == {[name |-> "io", path |-> "io"], [name |-> "io", path |-> "x/io"],
+            [name |-> "src", path |-> "q/src"], [name |-> "src", path |-> "s/src"]}
+\* probe-template route: the real source package ("src") and a foreign package of the same name
+MCPkgsT == MCPkgs4 \cup {[name |-> "src", path |-> "q/src"], [name |-> "src", path |-> "src"]}
+MCPrefixesP == {"io", "src"}
+MCAddNamesP == {"io0", "src"}
+====\* package-focused alphabet: a path that is a "/"-suffix of another one ("io" vs "x/io"), a package named like
+\* the source package, and the source package itself (= destination path: external test package unless in-package)
+MCPkgsP == {[name |-> "io", path |-> "io"], [name |-> "io", path |-> "x/io"],
+            [name |-> "src", path |-> "q/src"], [name |-> "src", path |-> "s/src"]}
+\* probe-template route: the real source package ("src") and a foreign package of the same name
+MCPkgsT == MCPkgs4 \cup {[name |-> "src", path |-> "q/src"], [name |-> "src", path |-> "src"]}
+MCPrefixesP == {"io", "src"}
+MCAddNamesP == {"io0", "src"}
+====\* package-focused alphabet: a path that is a "/"-suffix of another one ("io" vs "x/io"), a package named like
+\* the source package, and the source package itself (= destination path: external test package unless in-package)
+MCPkgsP == {[name |-> "io", path |-> "io"], [name |-> "io", path |-> "x/io"],
+            [name |-> "src", path |-> "q/src"], [name |-> "src", path |-> "s/src"]}
+\* probe-template route: the real source package ("src") and a foreign package of the same name
+MCPkgsT == MCPkgs4 \cup {[name |-> "src", path |-> "q/src"], [name |-> "src", path |-> "src"]}
+MCPrefixesP == {"io", "src"}
+MCAddNamesP == {"io0", "src"}
+====\* package-focused alphabet: a path that is a "/"-suffix of another one ("io" vs "x/io"), a package named like
+\* the source package, and the source package itself (= destination path: external test package unless in-package)
+MCPkgsP == {[name |-> "io", path |-> "io"], [name |-> "io", path |-> "x/io"],
+            [name |-> "src", path |-> "q/src"], [name |-> "src", path |-> "s/src"]}
+\* probe-template route: the real source package ("src") and a foreign package of the same name
+MCPkgsT == MCPkgs4 \cup {[name |-> "src", path |-> "q/src"], [name |-> "src", path |-> "src"]}
+MCPrefixesP == {"io", "src"}
+MCAddNamesP == {"io0", "src"}
+====\* package-focused alphabet: a path that is a "/"-suffix of another one ("io" vs "x/io"), a package named like
+\* the source package, and the source package itself (= destination path: external test package unless in-package)
+MCPkgsP == {[name |-> "io", path |-> "io"], [name |-> "io", path |-> "x/io"],
+            [name |-> "src", path |-> "q/src"], [name |-> "src", path |-> "s/src"]}
+\* probe-template route: the real source package ("src") and a foreign package of the same name
+MCPkgsT == MCPkgs4 \cup {[name |-> "src", path |-> "q/src"], [name |-> "src", path |-> "src"]}
+MCPrefixesP == {"io", "src"}
+MCAddNamesP == {"io0", "src"}
+====\* package-focused alphabet: a path that is a "/"-suffix of another one ("io" vs "x/io"), a package named like
+\* the source package, and the source package itself (= destination path: external test package unless in-package)
+MCPkgsP == {[name |-> "io", path |-> "io"], [name |-> "io", path |-> "x/io"],
+            [name |-> "src", path |-> "q/src"], [name |-> "src", path |-> "s/src"]}
+\* probe-template route: the real source package ("src") and a foreign package of the same name
+MCPkgsT == MCPkgs4 \cup {[name |-> "src", path |-> "q/src"], [name |-> "src", path |-> "src"]}
+MCPrefixesP == {"io", "src"}
+MCAddNamesP == {"io0", "src"}
+=====
